@@ -913,9 +913,10 @@ class Emitter:
                         body.append('  LL2C_NSW_CHECK_%s(%s, %s, %d);' % (ins.bop.upper(), s.signed(n, s.val(ins.a)), s.signed(n, s.val(ins.b)), n))
                     body.append('  %s%s;' % (R, s.binop(ins.bop, ins.ty, ins.a, ins.b)))
                 elif op == 'fbin':
-                    sym = {'fadd': '+', 'fsub': '-', 'fmul': '*', 'fdiv': '/'}
                     if ins.bop == 'frem': body.append('  %sfmod(%s, %s);' % (R, s.val(ins.a), s.val(ins.b)))
-                    else: body.append('  %s(%s %s %s);' % (R, s.val(ins.a), sym[ins.bop], s.val(ins.b)))
+                    else:
+                        suf = 'F' if isinstance(s.resolve(ins.ty), TFloat) and s.resolve(ins.ty).k == 'float' else ''
+                        body.append('  %sLL2C_%s%s(%s, %s);' % (R, ins.bop.upper(), suf, s.val(ins.a), s.val(ins.b)))
                 elif op == 'fneg': body.append('  %s(-%s);' % (R, s.val(ins.a)))
                 elif op == 'icmp':
                     rt = s.resolve(ins.ty)
